@@ -417,7 +417,8 @@ def _base_local(body, pl):
     l = pl["l"]
     for _ in range(4):
         ds = body.defs().get(l, [])
-        if len(ds) == 1 and ds[0][2] == "assign" and ds[0][3]["rv"]["k"] in ("ref", "rawptr") and not ds[0][3]["rv"]["place"]["p"]:
+        if len(ds) == 1 and ds[0][2] == "assign" and ds[0][3]["rv"]["k"] in ("ref", "rawptr") and all(p == "*" for p in ds[0][3]["rv"]["place"]["p"]):
+            # `&x`, or the reborrow `&*r` of a reference local
             l = ds[0][3]["rv"]["place"]["l"]
         elif len(ds) == 1 and ds[0][2] == "assign" and ds[0][3]["rv"]["k"] == "use" and op_place(ds[0][3]["rv"]["a"][0]) is not None and not op_place(ds[0][3]["rv"]["a"][0])["p"]:
             l = op_place(ds[0][3]["rv"]["a"][0])["l"]
